@@ -501,20 +501,24 @@ def _enforce_bounds_vector(u, du, alpha, lower_bounds, upper_bounds):
     # Find the largest amount a bound is violated
     # where positive means a bound is violated - i.e. the required d_alpha.
     du_arr = du.asarray()
-    mask = du_arr != 0
-    if mask.any():
-        abs_du_mask = np.abs(du_arr[mask])
-        u_mask = u.asarray()[mask]
+    u_arr = u.asarray()
 
-        # Check lower bound
-        if lower_bounds is not None:
-            max_d_alpha = np.amax((lower_bounds[mask] - u_mask) / abs_du_mask)
+    # Only an entry that moves towards a bound can cross it. An entry that sits on a bound to
+    # within round-off and moves away from it (or not at all) must not steer the whole vector.
+
+    # Check lower bound
+    if lower_bounds is not None:
+        mask = du_arr < 0
+        if mask.any():
+            max_d_alpha = np.amax((lower_bounds[mask] - u_arr[mask]) / -du_arr[mask])
             if max_d_alpha > d_alpha:
                 d_alpha = max_d_alpha
 
-        # Check upper bound
-        if upper_bounds is not None:
-            max_d_alpha = np.amax((u_mask - upper_bounds[mask]) / abs_du_mask)
+    # Check upper bound
+    if upper_bounds is not None:
+        mask = du_arr > 0
+        if mask.any():
+            max_d_alpha = np.amax((u_arr[mask] - upper_bounds[mask]) / du_arr[mask])
             if max_d_alpha > d_alpha:
                 d_alpha = max_d_alpha
 
@@ -524,6 +528,9 @@ def _enforce_bounds_vector(u, du, alpha, lower_bounds, upper_bounds):
         # d_alpha will not be greater than alpha because the assumption is that
         # the original point was valid - i.e., no bounds were violated.
         # Therefore 0 <= d_alpha <= alpha.
+
+        # Round-off in u + alpha * du can push the estimate past alpha; never step backwards.
+        d_alpha = min(d_alpha, alpha)
 
         # We first update u to reflect the required change to du.
         u.add_scal_vec(-d_alpha, du)
